@@ -67,6 +67,12 @@ type ExecutionContext struct {
 	template   *Template
 	macroDepth int
 
+	// tagState holds the per-execution state of stateful tags (cycle,
+	// ifchanged), keyed by the tag's node. It is shared by all child contexts
+	// of one execution. Compiled templates must not be modified by an
+	// execution: they can be executed repeatedly and concurrently.
+	tagState map[any]any
+
 	Autoescape bool
 	Public     Context
 	Private    Context
@@ -89,6 +95,7 @@ func newExecutionContext(tpl *Template, ctx Context) *ExecutionContext {
 		Public:     ctx,
 		Private:    privateCtx,
 		Autoescape: autoescape,
+		tagState:   make(map[any]any),
 	}
 }
 
@@ -101,6 +108,10 @@ func NewChildExecutionContext(parent *ExecutionContext) *ExecutionContext {
 		Autoescape: parent.Autoescape,
 	}
 	newctx.Shared = parent.Shared
+	if parent.tagState == nil {
+		parent.tagState = make(map[any]any)
+	}
+	newctx.tagState = parent.tagState
 
 	// Copy all existing private items
 	newctx.Private.Update(parent.Private)
